@@ -317,7 +317,68 @@ def r14_8(chk):
     chk.floor("R14.8", 3, "three membership obligations")
 
 
+BROAD = {"Exception", "BaseException", "OSError", "IOError", "EnvironmentError", "FileNotFoundError", "PermissionError"}
+
+
+def _handler_types(h):
+    if h.type is None:
+        return {"BaseException"}
+    ts = h.type.elts if isinstance(h.type, ast.Tuple) else [h.type]
+    return {norm(t).split(".")[-1] for t in ts}
+
+
+def r14_9(chk):
+    chk.rule("R14.9", "a not-completed record carries the failure's MESSAGE: where a NotCompleted is built inside a handler that can catch an OSError (Exception, OSError, bare except, ...), its message is not `err.args[0]` -- for an OSError that is the errno (an int: load_tabular on a missing file recorded message=2, and summarising the store then raised TypeError), and for an argument-less exception it raises IndexError out of the handler, so the record's failure is raised instead of recorded")
+    n = 0
+    for mod in chk.repo.all_modules():
+        if "/app/" not in mod.rel or "NotCompleted(" not in mod.source:
+            continue
+        for q, fn in mod.all_functions():
+            for h in walk_no_nested(fn):
+                if not (isinstance(h, ast.ExceptHandler) and h.name):
+                    continue
+                for c in ast.walk(h):
+                    if not (isinstance(c, ast.Call) and (call_name(c) or "").split(".")[-1] == "NotCompleted"):
+                        continue
+                    msg = next((k_.value for k_ in c.keywords if k_.arg == "message"), c.args[2] if len(c.args) > 2 else None)
+                    if msg is None:
+                        continue
+                    n += 1
+                    from_args = any(isinstance(x, ast.Subscript) and norm(x.value) == f"{h.name}.args" for x in ast.walk(msg))
+                    broad = sorted(_handler_types(h) & BROAD)
+                    k = key(mod, q, f"message of the NotCompleted built under except {'/'.join(sorted(_handler_types(h)))}")
+                    if from_args and broad:
+                        chk.violation("R14.9", k, mod.loc(c), f"message is `{norm(msg)}` under `except {'/'.join(broad)}`: an OSError's args[0] is its errno (int), an exception raised without arguments has no args[0]")
+                    else:
+                        chk.ok("R14.9", k, mod.loc(c), "text message" if not from_args else f"`{norm(msg)}` under a handler that cannot see an OSError", nontrivial=True)
+    chk.floor("R14.9", 3, "three NotCompleted constructions inside named handlers (align, evo, io)")
+
+
+def r14_10(chk):
+    chk.rule("R14.10", "a writer that obtains its payload by calling another app (write_db: `blob = self._serialiser(data)`) tests THAT result for NotCompleted before handing it to data_store.write: the serialiser is a composed app and answers a failure with a NotCompleted value, which the store cannot checksum (TypeError out of apply_to, the records after it are never processed)")
+    m = chk.repo.module("app/io.py")
+    fn = m.func("write_db.main")
+    g = build(fn)
+    blobs = [st for st in walk_no_nested(fn) if isinstance(st, ast.Assign) and isinstance(st.value, ast.Call) and norm(st.value.func).startswith("self._serialiser") and len(st.targets) == 1]
+    if not blobs:
+        raise AnalysisError("write_db.main: the serialiser call was not found")
+    n = 0
+    for st in blobs:
+        tnames = {x.id for x in ast.walk(st.targets[0]) if isinstance(x, ast.Name)}
+        first = st.targets[0].elts[-1].id if isinstance(st.targets[0], ast.Tuple) else next(iter(tnames))
+        tested = [c for c in walk_no_nested(fn) if isinstance(c, ast.Call) and norm(c.func) == "isinstance" and len(c.args) == 2 and isinstance(c.args[0], ast.Name) and c.args[0].id in tnames and "NotCompleted" in norm(c.args[1])]
+        n += 1
+        k = key(m, "write_db.main", f"result of the serialiser ({first}) tested for NotCompleted")
+        # the last serialiser call may serialise the failure itself: it is exempt when its argument was tested
+        arg = st.value.args[0] if st.value.args else None
+        arg_tested = arg is not None and isinstance(arg, ast.Name) and any(isinstance(c, ast.Call) and norm(c.func) == "isinstance" and c.args and isinstance(c.args[0], ast.Name) and c.args[0].id == arg.id and c.lineno < st.lineno and "NotCompleted" in norm(c.args[1]) for c in walk_no_nested(fn))
+        chk.decide(bool(tested) or arg_tested, "R14.10", k, m.loc(st), "tested (or it serialises a value already known to be the failure)", f"`{norm(st)}`: the result is passed on to data_store.write / write_not_completed without an isinstance(..., NotCompleted) test; when the record cannot be serialised the store is handed a NotCompleted and raises TypeError")
+    chk.floor("R14.10", 1, "write_db.main")
+
+
 def run(chk):
+    r14_10(chk)
+    r14_9(chk)
     r14_8(chk)
     r14_7(chk)
     r14_6(chk)
